@@ -200,6 +200,22 @@ PROPS["C19"] = {
     "expect_probes": ["signals.handler", "signals.nested_handler", "signal.deferred_by_mask"],
 }
 
+PROPS["C16"] = {
+    "level": "exploration",
+    "scenarios": {"fork": {"quick": 150000, "thorough": 4000000, "thorough_time": 900}},
+    "rule": "one evaluation = one seeded simulated execution containing one REAL fork(): the forking thread runs a generated prefix (call_rcu on default / per-thread / per-CPU helpers incl. RT ones, read sections, synchronize_rcu, rcu_barrier, "
+            "an AUTO_RESIZE hash table with queued resize work), forks at a seed-chosen position bracketed by call_rcu_before_fork / [bp: urcu_bp_before_fork] ... and the matching after_fork handlers, with helper threads sleeping, polling or mid-batch; "
+            "bp additionally with 0-3 other reader threads registering, inside sections or exiting at fork time. The child (only the forking thread exists; simulated helper threads are gone, their mutexes/futexes inherited as they were) immediately runs a read section, "
+            "synchronize_rcu(), call_rcu()+rcu_barrier(), builds/resizes/destroys a resizable hash table; the parent continues and runs rcu_barrier(). Oracles per process: termination (deadlock detector + bounded progress), "
+            "every callback queued before the fork runs exactly once in the parent and exactly once in the child, C01 interval oracle (sections of vanished threads are over in the child), tracked-arena use-after-free. "
+            "Non-trivial = the fork happened with both processes completing; distinct = distinct event-log fingerprints.",
+    "assumptions": COMMON_ASSUME + ["handler order used: call_rcu_before_fork, urcu_bp_before_fork, fork, urcu_bp_after_fork_*, call_rcu_after_fork_* (the only order that cannot self-deadlock: helpers need the bp locks to reach their pause point)",
+                                    "qsbr: the handlers are called from an offline thread (they wait for helper threads that may be inside synchronize_rcu())",
+                                    "non-bp flavors: no application thread besides the forking one is registered at fork time (documented requirement)",
+                                    "counters of the forked child (faults, probes) are not merged into the evidence; its violations are"],
+    "expect_probes": ["os.fork", "fork.parent_continues"],
+}
+
 NOT_APPLICABLE = {}
 
 _SIM_NOTE = ("Trusted base: the usim runtime (scheduler, TSO model, simulated OS, tracked arena), gcc's access instrumentation, "
@@ -260,4 +276,7 @@ MANIFEST_TEXT = {
     "C19": {"design_ref": "3.19",
             "level_text": "Seeded exploration of signal arrival at any access of the interrupted thread with nested handlers; state-restored oracle plus the C01 oracles over handler and interrupted sections.",
             "level_note": _SIM_NOTE},
+    "C16": {"design_ref": "3.16",
+            "level_text": "Seeded exploration of a real fork() at any point relative to in-flight grace periods, queued callbacks, sleeping/busy helpers and resize work; per-process exactly-once, termination and grace-period oracles.",
+            "level_note": _SIM_NOTE + " The child process is a real forked process running under the same simulator state."},
 }
